@@ -125,9 +125,29 @@ def run_unit(unit, seed=0, both=False):
     return res
 
 
+class UnitTimeout(BaseException):
+    pass
+
+
+UNIT_TIMEOUT_S = int(os.environ.get('VC_UNIT_TIMEOUT_S', '600'))
+
+
 def _worker(i):
+    import signal
     u = _UNITS[i]
-    return run_unit(u, **_OPTS)
+
+    def on_alarm(sig, frm):
+        raise UnitTimeout()
+    signal.signal(signal.SIGALRM, on_alarm)
+    signal.alarm(UNIT_TIMEOUT_S)
+    try:
+        return run_unit(u, **_OPTS)
+    except UnitTimeout:
+        # path explosion (typically on a changed tree): undecided, never a verdict
+        return {'unit': u.name, 'kind': u.kind, 'paths': 0, 'obligations': [], 'unsupported': [f'unit time limit of {UNIT_TIMEOUT_S}s exceeded'],
+                'covers': [], 'outcomes': {}, 'error': None, 'seconds': float(UNIT_TIMEOUT_S)}
+    finally:
+        signal.alarm(0)
 
 
 def run_all(units, lib=None, jobs=None, seed=0, both=False):
